@@ -132,6 +132,11 @@ def get_attr(eng, o, attr, node):
             return "/"
         if o.dotted == "posixpath" and attr == "sep":
             return "/"
+        if o.dotted == "stat":
+            import stat as _stat
+
+            if isinstance(getattr(_stat, attr, None), int):
+                return getattr(_stat, attr)  # POSIX constants of the stat module (platform assumption)
         return ExtRef(o.dotted + "." + attr)
     if isinstance(o, PyObjV):
         return eng.from_python(getattr(o.obj, attr))
@@ -323,7 +328,16 @@ def _box(eng, v):
         return SOpq(f(z3.IntVal(abs(hash(v)) % (1 << 30))))
     if isinstance(v, tuple):
         f = V.uf("pytuple%d" % len(v), *([V.vsort()] * len(v) + [V.vsort()]))
-        return SOpq(f(*[_box(eng, x).t for x in v])) if v else SOpq(z3.Const("empty_tuple", V.vsort()))
+        if not v:
+            return SOpq(z3.Const("empty_tuple", V.vsort()))
+        parts = [_box(eng, x).t for x in v]
+        r = SOpq(f(*parts))
+        if eng.abstract:
+            # projections of a boxed tuple (what unpacking an opaque value reads): item(tuple(a, b), 0) == a ...
+            it = V.uf("item", V.vsort(), z3.IntSort(), V.vsort())
+            for i, pt in enumerate(parts):
+                eng.pc.append(it(r.t, z3.IntVal(i)) == pt)
+        return r
     return V.box(v)
 
 
@@ -453,8 +467,13 @@ def _contains(eng, container, x, node):
     if isinstance(container, Ref):
         k = eng.kind(container)
         if k == "dict":
+            if isinstance(x, SOpq) and eng.abstract:
+                # abstract mode: membership of an opaque key is unconstrained (every outcome explored)
+                return eng.fresh_bool("in_dict")
             if is_sym(x):
                 raise EngineError("symbolic key lookup")
+            if eng.has_field(container, "sym_written") and eng.get_field(container, "sym_written"):
+                raise EngineError("concrete lookup in a dict written under an opaque key")
             d = eng.get_field(container, "items")
             if x in d:
                 return True
@@ -476,16 +495,16 @@ def _contains(eng, container, x, node):
         return x in container
     if isinstance(container, BuiltinMethod):
         pass
-    if isinstance(container, SSeq) or is_sym(x):
-        c = V.to_seq(container)
-        if isinstance(x, (SSeq, bytes, str)):
-            return SBool(z3.Contains(c.t, V.to_seq(x).t))
-        return SBool(z3.Contains(c.t, z3.Unit(V._zi(x))))
     if isinstance(container, SOpq):
         if not eng.abstract:
             raise EngineError("`in` on opaque value")
         f = V.uf("contains", V.vsort(), V.vsort(), z3.BoolSort())
         return SBool(f(container.t, _box(eng, x).t))
+    if isinstance(container, SSeq) or is_sym(x):
+        c = V.to_seq(container)
+        if isinstance(x, (SSeq, bytes, str)):
+            return SBool(z3.Contains(c.t, V.to_seq(x).t))
+        return SBool(z3.Contains(c.t, z3.Unit(V._zi(x))))
     raise EngineError("`in` on %r" % (container,))
 
 
@@ -618,6 +637,9 @@ def set_item(eng, o, idx, v, node):
     if isinstance(o, Ref):
         k = eng.kind(o)
         if k == "dict":
+            if isinstance(idx, SOpq) and eng.abstract:
+                eng.set_field(o, "sym_written", True)  # later opaque-key reads are opaque calls, concrete-key reads are refused
+                return
             if is_sym(idx):
                 raise EngineError("symbolic dict key store")
             d = dict(eng.get_field(o, "items"))
@@ -889,6 +911,8 @@ def list_method(eng, o, name, args, kwargs, node):
                 pass
             elif items.elem == "opq" and isinstance(x, SOpq):
                 pass
+            elif items.elem == "opq" and isinstance(x, tuple) and eng.abstract:
+                x = _box(eng, x)
             elif isinstance(x, (Ref, tuple)) or x is None or isinstance(x, (bytes, str)):
                 raise EngineError("append of non-scalar to symbolic list")
             unit = V.to_seq([x], elem=items.elem, py="list")
@@ -1936,6 +1960,8 @@ def _pathlib_path(eng, args, kwargs, node):
 
 @ext("pathlib.Path.cwd")
 def _pathlib_cwd(eng, args, kwargs, node):
+    if eng.abstract and not getattr(eng.contract, "model_pathlib", False):
+        return eng.opaque_call("pathlib.Path.cwd", None, args, kwargs, node)
     if "cwd" not in eng.ghost:
         parts = eng.fresh_seq("cwd.parts", "str", "tuple")
         p = new_path(eng, parts, parsed=True)
